@@ -87,6 +87,9 @@ func c17Skip(cs *drv.Case, b []byte, t byte) {
 
 // c17Reader judges one thrift.Binary reader on a truncated / negative-size input.
 func c17Readers(cs *drv.Case, b []byte) {
+	// the allocator switch must not change the error class: alternate it between cases
+	thrift.SetSpanCache(cs.Idx%2 == 1)
+	defer thrift.SetSpanCache(false)
 	in := place(b, 0)
 	x := thrift.Binary
 	check := func(entry string, err error, need int, acc ...int32) {
@@ -170,7 +173,18 @@ func c17Message(cs *drv.Case, b []byte) {
 	}
 }
 
-var c17Errs = []error{io.EOF, io.ErrUnexpectedEOF, doubles.ErrCustom, errors.New("connection reset by peer")}
+// sliceErr is an error whose dynamic type is not comparable.
+type sliceErr []string
+
+func (e sliceErr) Error() string { return "aggregate: " + fmt.Sprint([]string(e)) }
+
+var c17Errs = []error{io.EOF, io.ErrUnexpectedEOF, doubles.ErrCustom, errors.New("connection reset by peer"),
+	doubles.ErrTimeout,
+	fmt.Errorf("framed transport: %w", thrift.NewProtocolException(thrift.INVALID_DATA, "inner protocol error")), // wraps a protocol exception
+	fmt.Errorf("tls: %w", io.EOF),
+	sliceErr{"a", "b"}, // non-comparable dynamic type
+	thrift.NewTransportException(3, "transport closed"),
+}
 
 // the last stream failure seen by this worker: the error value a caller may still hold while the
 // pooled reader that produced it is being reused
@@ -180,11 +194,23 @@ var c17Prev struct {
 	text string
 }
 
+// c17Matches is errors.Is for comparable source errors. A source error of a non-comparable dynamic
+// type can never be matched by errors.Is (that is how the errors package works); for those the
+// cause must be reachable with errors.As, and asking errors.Is must simply not panic.
+func c17Matches(err, src error) bool {
+	if se, ok := src.(sliceErr); ok {
+		_ = errors.Is(err, src)
+		var got sliceErr
+		return errors.As(err, &got) && len(got) == len(se)
+	}
+	return errors.Is(err, src)
+}
+
 func c17CheckPrev(cs *drv.Case) {
 	if c17Prev.err == nil {
 		return
 	}
-	if !errors.Is(c17Prev.err, c17Prev.src) || c17Prev.err.Error() != c17Prev.text {
+	if !c17Matches(c17Prev.err, c17Prev.src) || c17Prev.err.Error() != c17Prev.text {
 		cs.Fail("retained-error-changed", M{"source_err": c17Prev.src.Error()}, M{"was": c17Prev.text, "now": c17Prev.err.Error(), "message": "an error returned by an earlier, finished decode changed after the pooled reader was reused"})
 	}
 	c17Prev.err = nil
@@ -206,7 +232,7 @@ func c17Stream(cs *drv.Case, vals []cval, stream []byte, cut int, e error, withD
 		}
 		// the stream is a valid encoding cut short: this failure is caused by the underlying reader
 		cs.C.Obs("stream failures classified", 1)
-		if !errors.Is(ferr, e) {
+		if !c17Matches(ferr, e) {
 			cs.Fail("source-error-not-matchable", M{"kind": kindNames[v.K], "source_err": e.Error()}, M{"value_index": i, "cut": cut, "stream_len": len(stream), "err": errString(ferr), "err_type": fmt.Sprintf("%T", ferr), "with_data": withData, "message": "errors.Is(err, sourceErr) is false for a failure caused by the underlying reader"})
 		}
 		if _, isPE := typeID(ferr); isPE {
@@ -230,7 +256,7 @@ func c17StreamSkip(cs *drv.Case, t byte, enc []byte, cut int, e error, withData 
 		return // accepting a truncated value is C08's business
 	}
 	cs.C.Obs("stream failures classified", 1)
-	if !errors.Is(err, e) {
+	if !c17Matches(err, e) {
 		cs.Fail("source-error-not-matchable", M{"kind": "Skip", "source_err": e.Error()}, M{"type": t, "cut": cut, "stream_len": len(enc), "err": errString(err), "err_type": fmt.Sprintf("%T", err)})
 	}
 }
